@@ -7,6 +7,9 @@ them is a violation), needs_mosn_binary.
 """
 
 JOBS = {
+    "C01": [
+        {"cmd": "c01-codec", "race": False, "batches": {"quick": 8, "thorough": 16}, "timeout": {"quick": 600, "thorough": 2400}},
+    ],
     "C05": [
         {"cmd": "c05-policies", "race": False, "batches": {"quick": 8, "thorough": 16}, "timeout": {"quick": 300, "thorough": 1500}},
         {"cmd": "c05-concurrent", "race": True, "timeout": {"quick": 300, "thorough": 1500},
